@@ -1,4 +1,4 @@
-From V Require Import Common.Base Common.Utf8 C07.LineCol C07.Builder C07.Vlq C07.SpecMap C07.Mappings C07.MappingsProofs C07.FindProofs C07.JoinProofs C07.SpecBuilder C07.LineColProofs C07.JoinAll C07.JoinAllProofs.
+From V Require Import Common.Base Common.Utf8 C07.LineCol C07.Builder C07.Vlq C07.SpecMap C07.Mappings C07.MappingsProofs C07.FindProofs C07.JoinProofs C07.SpecBuilder C07.LineColProofs C07.JoinAll C07.JoinAllProofs C07.Pipeline C07.Shift C07.ShiftProofs.
 (* non-vacuity / sanity: concrete values *)
 Example enc_ex : map encodeVLQ [0; 1; -1; 15; 16; -16; 123456] =
   [[65]; [67]; [68]; [101]; [103; 66]; [104; 66]; [103; 107; 120; 72]].
@@ -61,4 +61,23 @@ Proof.
   - exists 0%nat, 0, 0, 0, 0, None, [OMap 4 0 0 4 (Some 0)]. reflexivity.
   - exists 1%nat, 2, 0, 1, 3, (Some 0), [ONewline]. reflexivity.
   - exists 0%nat, 1, 0, 2, 0, None, []. reflexivity.
+Qed.
+(* pipeline_exact: two files and a shift on generated line 1; hypotheses hold and
+   the expected final mappings are non-trivial (second file starts on line 1 at
+   column 5 of the chunk; its first-line mappings after column 3 move by +5) *)
+Example pipeline_ex :
+  let f1 : src_file := ([97; 195; 169; 98; 10; 99; 100], [(0, 0, []); (3, 1, [120; 32]); (5, 0, [121; 10; 32; 32])], [122], (0, 0), 4) in
+  let f2 : src_file := ([113; 32; 114], [(0, 2, []); (2, 0, [113; 61])], [114; 59; 10], (0, 2), 9) in
+  let sh := [((0, 0), (0, 0)); ((1, 3), (1, 8))] in
+  Forall src_ok [f1; f2] /\ shifts_wf sh /\
+  map (shift_abs sh) (joined_abs [(4, 0); (9, 1)] (map spec_file [f1; f2]) (0, 0) 0) =
+    [mkAbs 0 0 (Some (0, 0, 0)) None; mkAbs 0 2 (Some (0, 0, 2)) (Some 0);
+     mkAbs 1 0 (Some (0, 0, 2)) None; mkAbs 1 2 (Some (0, 1, 0)) None;
+     mkAbs 1 10 (Some (1, 0, 0)) (Some 1); mkAbs 1 12 (Some (1, 0, 2)) None].
+Proof.
+  split; [|split; [|vm_compute; reflexivity]].
+  - repeat (apply Forall_cons || apply Forall_nil); cbn [src_ok fst snd];
+      (split; [repeat (apply Forall_cons; [right; vm_compute; auto 10|]); apply Forall_nil|]);
+      (split; [discriminate|]); lia.
+  - cbn. repeat split; try reflexivity. repeat constructor; reflexivity.
 Qed.
